@@ -4,6 +4,7 @@ given cache directory."""
 import asyncio
 import os
 import shutil
+import time
 from pathlib import Path
 
 from . import runner as R
@@ -93,12 +94,48 @@ def install_executor_tracker():
     rr.ThreadPoolExecutor = Tracked
 
 
+_KEPT = []       # Repository objects a history keeps alive across commands (long-lived clients)
+
+
+def keep(repo):
+    """`repo` stays in use after this command: executors it OWNS (attributes of the object, e.g. its default backend executor) are
+    part of it and are left alone by `settle()`; the per-command ones (`_load_snapshots`' loader, restore's pools, …) are not"""
+    _KEPT.append(repo)
+    return repo
+
+
 def settle(timeout=0.5):
+    owned = {id(v) for repo in _KEPT for v in vars(repo).values()}
+    rest = []
     while _EXECUTORS:
         ex = _EXECUTORS.pop()
+        if id(ex) in owned:
+            rest.append(ex)
+            continue
         ex.shutdown(wait=False, cancel_futures=True)
-        for t in list(getattr(ex, '_threads', ())):
+        threads = list(getattr(ex, '_threads', ()))
+        loop = R.PERSISTENT_LOOP
+        if loop is not None and not loop.is_closed() and not loop.is_running():
+            # a long-lived client's event loop goes on running after a command failed: the threads that command left behind
+            # (parked on the loop for a slot / a download) finish their work now, not in the middle of the next command
+            deadline = time.monotonic() + 4 * timeout
+            while any(t.is_alive() for t in threads) and time.monotonic() < deadline:
+                loop.run_until_complete(asyncio.sleep(0.001))
+        for t in threads:
             t.join(timeout)      # a thread parked for ever on a closed event loop never writes anything; do not wait for it
+    _EXECUTORS.extend(rest)
+
+
+def close_persistent_loop():
+    """end of a history run by long-lived clients: drop the one event loop their Repository objects lived on"""
+    del _KEPT[:]
+    settle()
+    loop, R.PERSISTENT_LOOP = R.PERSISTENT_LOOP, None
+    if loop is not None:
+        try:
+            loop.close()
+        except Exception:  # noqa: BLE001  (a failed command of the real code left something running on it)
+            pass
 
 
 def repo_on(world, ui, backend, cache_directory=None):
@@ -127,7 +164,7 @@ def real_load(repo, regex):
         return out
     try:
         with R.quiet():
-            return None, asyncio.run(go())
+            return None, R.run(go())       # on the history's one event loop when the client is long-lived
     except Exception as e:  # noqa: BLE001
         return err_kind(e), None
 
